@@ -83,6 +83,13 @@ func (h *fwdHooks) OnCall(c *engine.Ctx, instr ssa.Instruction, callee *ssa.Func
 			h.appendTrace(c, "<?rune>")
 		}
 		return true, engine.TupleV{Elems: []engine.AbsVal{engine.Top{}, engine.NilV{}}}
+	case "(*strings.Builder).Write":
+		if s, ok := constStr(args[1]); ok {
+			h.appendTrace(c, s)
+		} else {
+			h.appendTrace(c, "<?bytes>")
+		}
+		return true, engine.TupleV{Elems: []engine.AbsVal{engine.Top{}, engine.NilV{}}}
 	case "(*strings.Builder).WriteString":
 		if s, ok := constStr(args[1]); ok {
 			h.appendTrace(c, s)
